@@ -92,8 +92,9 @@ def f1_effects(ctx):
     if not bad:
         ctx.holds('C13.F1', conv, '%d effect sites: all under the output directory except %d allowed source effects (subset store, temp_wh.dat) '
                   '(%d call sites interpreted)' % (len(sites), n_src, f.calls_seen), 'convert')
-    ctx.check(len([1 for e, root, pat in sites if root == 'OUT' and e.kind == 'write']) >= 15, 'C13.F1', conv, 'convert', 'the effect analysis sees the writes of the export',
-              'effect analysis lost the writes of convert')
+    # a health condition of the analysis, not a property of the code: when the call graph no longer reaches the writers the whitelist above is vacuous - undecided, never violated
+    ctx.tri(len([1 for e, root, pat in sites if root == 'OUT' and e.kind == 'write']) >= 15, False, 'C13.F1', conv, 'convert', 'the effect analysis sees the writes of the export',
+            '', 'the effect analysis reaches fewer than 15 writes of the export: the call tree of convert was not fully resolved, the whitelist result above is not conclusive')
     # copy direction: shutil.copy(src under SRC, dst under OUT)
     cp = repo.lookup_method(cls, 'copy_files')
     okd = False
@@ -229,14 +230,30 @@ def t1_names(ctx):
         ctx.check(flags.get(dst) is True, 'C13.T1', ALF + ':_FILE_RENAMES', 'squeeze %s' % dst, '%s is squeezed when stored as (n, 1)' % dst, '%s is not squeezed when stored as (n, 1)' % dst)
     # label handling
     rl = repo.lookup_method(cls, 'rename_with_label')
+    # the glob patterns the renamer really uses: every `.glob(<expr>)` argument evaluated for every value of the loop variables it depends on
+    from vlib.front import str_eval
     pats = None
-    for a in rl.nodes(ast.Assign):
-        if isinstance(a.value, (ast.List, ast.Tuple)) and all(isinstance(const_value(e), str) for e in a.value.elts):
-            pats = [const_value(e) for e in a.value.elts]
+    for gcall in [c for c in rl.calls() if q.method_name(c) == 'glob' and c.args]:
+        arg = gcall.args[0]
+        loop_vals = {}
+        for lp_ in rl.nodes(ast.For):
+            if isinstance(lp_.target, ast.Name) and q.contains(lp_, gcall):
+                tbl = rl.expand(lp_.iter)
+                if isinstance(tbl, (ast.List, ast.Tuple)) and all(isinstance(const_value(e), str) for e in tbl.elts):
+                    loop_vals[lp_.target.id] = [const_value(e) for e in tbl.elts]
+        got = []
+        if not loop_vals:
+            v_ = str_eval(arg, {}, rl)
+            got = [v_] if v_ is not None else []
+        elif len(loop_vals) == 1:
+            (lv, vals), = loop_vals.items()
+            got = [str_eval(arg, {lv: x}, rl) for x in vals]
+        if got and all(x is not None for x in got):
+            pats = (pats or []) + got
     need = ['channels.x.npy', 'clusters.x.npy', 'spikes.x.npy', 'templates.x.npy', 'clusters.uuids.csv']
     miss = [n for n in need if not any(fnmatch.fnmatchcase(n, p) for p in (pats or []))]
-    ctx.check(pats is not None and not miss, 'C13.T1', rl, 'label patterns %s' % pats, 'the label is applied to all channels.* / clusters.* / spikes.* / templates.* files',
-              'the label patterns %s do not cover %s' % (pats, miss))
+    ctx.tri(pats is not None and not miss, pats is not None and bool(miss), 'C13.T1', rl, 'label patterns %s' % pats, 'the label is applied to all channels.* / clusters.* / spikes.* / templates.* files',
+            'the label patterns %s do not cover %s' % (pats, miss), 'the glob patterns of rename_with_label were not recognised')
     extra = [p for p in (pats or []) if any(fnmatch.fnmatchcase(n, p) for n in ('params.py', '_phy_spikes_subset.spikes.npy', 'cluster_KSLabel.tsv'))]
     ctx.check(not extra, 'C13.T1', rl, 'label patterns', 'files outside the four object families keep their names', 'label patterns %s also rename params.py / subset / tsv files' % extra)
     rn = [c for c in rl.calls() if q.method_name(c) == 'rename']
@@ -273,15 +290,37 @@ def t1_names(ctx):
             'the test on an empty label was not recognised')
     # order in convert: rename after all files are written, compression after rename (finds labelled names)
     conv = repo.lookup_method(cls, 'convert')
-    order = [q.method_name(c) for c in conv.calls() if isinstance(c.func, ast.Attribute) and unparse(c.func.value) in ('self', 'self.model')]
     want = ['make_cluster_objects', 'make_channel_objects', 'make_template_and_spikes_objects', 'save_spikes_subset_waveforms', 'make_depths', 'rm_files', 'copy_files',
             'rename_with_label', 'compress_spikes_dtypes']
-    seq = [o for o in order if o in want]
-    ctx.check(seq.index('rename_with_label') > max(seq.index(x) for x in want[:7] if x in seq) if 'rename_with_label' in seq and all(x in seq for x in want[:7]) else False,
-              'C13.T1', conv, 'step order', 'the label is applied after every object file has been written or copied',
-              'rename_with_label runs before some file is written: that file stays unlabelled (%s)' % seq)
-    ctx.check('make_depths' in seq and 'make_cluster_objects' in seq and seq.index('make_depths') > seq.index('make_cluster_objects'), 'C13.T1', conv, 'step order',
-              'cluster depths are computed after clusters.channels is written (make_depths reloads it)', 'make_depths runs before clusters.channels.npy exists')
+    from vlib.proto import known_functions
+
+    def steps_of(f_, depth=0):
+        # the steps of the conversion in execution order: direct method calls, helpers extracted after the pinned tree (followed), and calls through a table of method values
+        out_ = []
+        for c in f_.calls():
+            nm_ = q.method_name(c) if isinstance(c.func, ast.Attribute) else None
+            if nm_ in want:
+                out_.append(nm_)
+                continue
+            try:
+                tgs_ = repo.resolve_call(f_, c, virtual=False)
+            except Exception:
+                tgs_ = []
+            for t_ in tgs_:
+                if t_.name in want:
+                    out_.append(t_.name)
+                elif depth < 2 and t_.where not in known_functions():
+                    out_.extend(steps_of(t_, depth + 1))
+        return out_
+    seq = steps_of(conv)
+    complete = all(x in seq for x in want[:8])
+    ctx.tri(complete and seq.index('rename_with_label') > max(seq.index(x) for x in want[:7]), complete and seq.index('rename_with_label') < max(seq.index(x) for x in want[:7]),
+            'C13.T1', conv, 'step order', 'the label is applied after every object file has been written or copied',
+            'rename_with_label runs before some file is written: that file stays unlabelled (%s)' % seq, 'the sequence of conversion steps was not recognised (%s)' % seq)
+    both = 'make_depths' in seq and 'make_cluster_objects' in seq
+    ctx.tri(both and seq.index('make_depths') > seq.index('make_cluster_objects'), both and seq.index('make_depths') < seq.index('make_cluster_objects'), 'C13.T1', conv, 'step order',
+            'cluster depths are computed after clusters.channels is written (make_depths reloads it)', 'make_depths runs before clusters.channels.npy exists',
+            'the order of make_cluster_objects and make_depths was not recognised')
     cs = repo.lookup_method(cls, 'compress_spikes_dtypes')
     js = [n for n in ast.walk(cs.node) if isinstance(n, ast.JoinedStr)]
     attrs = None
